@@ -108,6 +108,12 @@ class StmtMixin:
                 st = st.copy()
                 st.env["$decl:" + n.target.id] = Val(ty)
             return [("normal", st, None)]
+        if isinstance(n.value, ast.Call) and isinstance(n.value.func, ast.Name) and n.value.func.id == "set" and not n.value.args \
+                and ty.kind == "set" and isinstance(n.target, ast.Name) and "set" not in st.env:
+            # x: Set[T] = set()  -- a fresh empty set whose element type (hence key sort) comes from the annotation
+            s = st.copy()
+            s.env[n.target.id] = self.new_dict_typed(s, ty)
+            return [("normal", s, None)]
         out = []
         for k, s, v in self.ev(n.value, st, fr):
             if k == "raise":
@@ -434,8 +440,7 @@ class StmtMixin:
     def s_While(self, n, st, fr):
         if n.orelse:
             raise OutOfSubset("while/else")
-        ordinal = fr.loop_counter
-        fr.loop_counter += 1
+        ordinal = self.loop_ordinal(fr, n)
         # `while c:` whose every path through the body leaves the loop is `if c:` (the shape of the three __next__ methods)
         if self.body_always_exits(n.body):
             out = []
@@ -468,6 +473,19 @@ class StmtMixin:
             return self.block(n.body, s, fr)
         return self.cut_loop(st, fr, ordinal, n, guard, body, self.assigned_names(n.body), {})
 
+    def loop_ordinal(self, fr: Frame, node) -> int:
+        """Static ordinal of a loop statement within its function (source order), so that every path reaching the loop finds the same invariant."""
+        root = fr.fn.node if fr.fn is not None else fr.module.tree
+        cache = getattr(self, "_loop_ordinals", None)
+        if cache is None:
+            cache = self._loop_ordinals = {}
+        key = id(root)
+        if key not in cache:
+            loops = [x for x in ast.walk(root) if isinstance(x, (ast.For, ast.While))]
+            loops.sort(key=lambda x: (x.lineno, x.col_offset))
+            cache[key] = {id(x): i for i, x in enumerate(loops)}
+        return cache[key][id(node)]
+
     def body_always_exits(self, body: List[ast.stmt]) -> bool:
         def exits(stmts: List[ast.stmt]) -> bool:
             for s in stmts:
@@ -495,8 +513,7 @@ class StmtMixin:
     def s_For(self, n, st, fr):
         if n.orelse:
             raise OutOfSubset("for/else")
-        ordinal = fr.loop_counter
-        fr.loop_counter += 1
+        ordinal = self.loop_ordinal(fr, n)
         out = []
         for k, st1, it in self.ev(n.iter, st, fr):
             if k == "raise":
@@ -618,7 +635,19 @@ class StmtMixin:
 
     # dict iteration: ghost order sequence, a bijection between [0, len) and the key set
     def dict_iter_setup(self, st: State, it: Val) -> None:
-        pass
+        """Every key of the dict has exactly one position in [0, len) (A-DICTORDER; the dict is not modified while iterated:
+        Python raises RuntimeError otherwise)."""
+        d = it.items[0]
+        kty = d.ty.args[0]
+        if kty.kind in ("obj",):
+            return
+        ks = V.sort_of(kty)
+        order = self.uf("dorder_" + V.sort_key(ks), V.Ref, z3.IntSort(), ks)
+        pos = self.uf("dpos_" + V.sort_key(ks), V.Ref, ks, z3.IntSort())
+        k = z3.Const("di_k", ks)
+        n = self.coll_len(st.heap, d)
+        has = self.dict_has(st.heap, d, Val(kty, k))
+        st.assume(z3.ForAll([k], z3.Implies(has, z3.And(0 <= pos(d.t, k), pos(d.t, k) < n, order(d.t, pos(d.t, k)) == k))))
 
     def dict_iter_element(self, s: State, it: Val, i) -> Val:
         d = it.items[0]
@@ -656,7 +685,14 @@ class StmtMixin:
             ss = S.SpecState(self, args, s.heap, entry_heap, None, {"entry_env": entry_env})
             return [(lbl, f(ss)) for lbl, f in iv.clauses]
 
-        # 1. establish
+        # 1. establish (the base-case definitions of the spec folds are available here too)
+        if iv is not None and iv.defs:
+            st = st.copy()
+            eargs = {k: v for k, v in st.env.items() if not k.startswith("$decl:")}
+            eargs.update(extra)
+            ess = S.SpecState(self, eargs, st.heap, entry_heap, None, {"entry_env": entry_env})
+            for lbl, f in iv.defs:
+                st.assume(f(ess))
         for lbl, g in inv_clauses(st):
             self.vc(st, g, f"{loc_label}.established", lbl, node, fr)
 
@@ -753,6 +789,12 @@ class StmtMixin:
         # names assigned in the body but unbound at entry stay unbound (python would raise UnboundLocalError after zero iterations)
         for lbl, g in inv_clauses(h):
             h.assume(g)
+        if iv is not None and iv.defs:
+            dargs = {k: v for k, v in h.env.items() if not k.startswith("$decl:")}
+            dargs.update(extra)
+            dss = S.SpecState(self, dargs, h.heap, entry_heap, None, {"entry_env": entry_env})
+            for lbl, f in iv.defs:
+                h.assume(f(dss))
         self.loop_frame_facts(st, h, modified)
         out: List = []
         for k, s1, c in guard(h):
